@@ -193,6 +193,12 @@ def run(ctx):
         else:
             for e in tr["ev"]:
                 ctx.nontrivial.add((e.get("size") or e.get("kind"), "".join(tr["seq"])[:40]))
+    from .. import orderswap
+    okua = {a_: a_ for a_ in common.AA}
+    items = [{"obj": 0, "seq": all20, "q": "get_reduced_alphabet_sequence", "a": [sz]} for sz in (0, 1, 7, 9, 13, 21, -1, 2, 8, 20, "x", 2.5)]
+    items += [{"obj": 0, "seq": all20, "q": "get_reduced_alphabet_sequence", "a": [20, ua_]} for ua_ in
+              (dict(okua, K="X"), dict(okua, K="ST"), dict(okua, K=""), dict(okua, K="k"), {k_: v_ for k_, v_ in okua.items() if k_ != "W"}, dict(okua, K="E"), dict(okua, A="C", C="D"))]
+    orderswap.env_differential(ctx, items, "alphabet-size-acceptance", "c12env")
     ctx.sample({"trace": {"seq": all20, "ev": [{"q": "alphabetmap", "size": 8, "map": trs[0]["ev"][5]["map"] if len(trs[0]["ev"]) > 5 else None}]}})
     ctx.sample({"user_alphabet_kinds": sorted({e["kind"] for t in trs for e in t["ev"] if e["q"] == "userreduce"})})
     ctx.assumptions += ["which member represents a group, and the order of the returned alphabet, are not constrained",
